@@ -21,7 +21,7 @@ def pregen(check):
 
 CFG = {
     "id": "C15",
-    "lean_modules": ["GeomV.C15.Proofs", "GeomV.C15.ProofsBlocks", "GeomV.C15.ProofsFloat", "GeomV.C15.ProofsPath", "GeomV.C15.ProofsNil", "GeomV.C15.ProofsFloatLift", "GeomV.C15.Ties"],
+    "lean_modules": ["GeomV.C15.Proofs", "GeomV.C15.ProofsBlocks", "GeomV.C15.ProofsFloat", "GeomV.C15.ProofsPath", "GeomV.C15.ProofsAnyFit", "GeomV.C15.ProofsNil", "GeomV.C15.ProofsFloatLift", "GeomV.C15.Ties"],
     "pregen": pregen,
     "exe": "geomv_c15",
     "go_cmd": "c15",
@@ -36,6 +36,7 @@ CFG = {
         "C15_tie_Point", "C15_tie_MultiPoint", "C15_tie_LineString", "C15_tie_Bounds",
         "C15_model_eq_spec_blocks", "C15_greedy_iff_perfect_blocks", "C15_false_displaced_copy", "C15_sepRel_block", "C15_perturb_blocks", "C15_false_blocks",
         "C15_blockRel_iff", "C15_any_fit_matcher", "C15_firstFit_is_code", "C15_false_displaced_member_blocks", "C15_false_displaced_anywhere",
+        "C15_any_fit_all_levels", "matchWith_eq_of_rows",
         "C15_nil_free_receiver_no_fault", "C15_nil_receiver_faults",
         "C15_float_lift", "C15_float_lift_symm", "simC_similar", "simC_congr",
         "C15_float_false", "C15_float_true", "C15_float_exact", "C15_float_symm", "truncInt_rounding",
